@@ -262,6 +262,11 @@ def Coords.shiftVals : Coords → List (List Rat)
   | .separated a => a
   | .unstructured c => c
 
+/-- does every value the shift rewrites absorb its shift, `rnd (x + b_i) = x`?  (decidable form of the
+right-hand side of `shiftF_keeps_iff`) -/
+def Coords.absorbs (rnd : Rat → Rat) (b : List Rat) (c : Coords) : Bool :=
+  (List.zip c.shiftVals b).all fun vb => vb.1.all fun x => decide (rnd (x + vb.2) = x)
+
 def Grid.shiftR (rnd : Rat → Rat) (b : List Rat) (g : Grid) : Grid := { g with coords := g.coords.shiftR rnd b }
 
 /-! ## Coordinate-system conversion `as_`: an exact executable model
